@@ -70,6 +70,59 @@ Definition lie_spec (Jv Ju : list (list K)) (v u : list K) : list K := vsub (mv 
 Definition plus_id (D : nat) (J : list (list K)) : list (list K) := madd J (eye D).
 End FiniteDiff.
 
+
+(* ---- flow-field operators assembled from the derivative tensors (core/flow.py): a D-dimensional flow field is the list
+        of its D components (each a nested-list tensor); sp = spacing per spatial dim (x, y, z) ---- *)
+Section FlowOps.
+Context {K : fld}.
+(* Jacobian as tensors: JT[i][k] = d u_i / d x_k on the whole grid *)
+Definition jacT2 (m : fdmode) (sp : list K) (u : list (list (list K))) : list (list (list (list K))) :=
+  map (fun ui => map (fun k => dstep2 m k (nth k sp 1) ui) (seq 0 2)) u.
+Definition jacT3 (m : fdmode) (sp : list K) (u : list (list (list (list K)))) : list (list (list (list (list K)))) :=
+  map (fun ui => map (fun k => dstep3 m k (nth k sp 1) ui) (seq 0 3)) u.
+Definition je2 (JT : list (list (list (list K)))) (i k y x : nat) : K := at2 (nth k (nth i JT []) []) y x.
+Definition je3 (JT : list (list (list (list (list K))))) (i k z y x : nat) : K := at3 (nth k (nth i JT []) []) z y x.
+Definition jac2_at JT y x : list (list K) := map (fun i => map (fun k => je2 JT i k y x) (seq 0 2)) (seq 0 2).
+Definition jac3_at JT z y x : list (list K) := map (fun i => map (fun k => je3 JT i k z y x) (seq 0 3)) (seq 0 3).
+Definition vec2_at (u : list (list (list K))) y x : list K := map (fun ui => at2 ui y x) u.
+Definition vec3_at (u : list (list (list (list K)))) z y x : list K := map (fun ui => at3 ui z y x) u.
+
+Definition on4 {R} (f : K -> K -> K -> K -> R) (J : list (list K)) : R := f (jat J 0 0) (jat J 0 1) (jat J 1 0) (jat J 1 1).
+Definition on9 {R} (f : K -> K -> K -> K -> K -> K -> K -> K -> K -> R) (J : list (list K)) : R :=
+  f (jat J 0 0) (jat J 0 1) (jat J 0 2) (jat J 1 0) (jat J 1 1) (jat J 1 2) (jat J 2 0) (jat J 2 1) (jat J 2 2).
+
+Definition tab2 {R} (ny nx : nat) (f : nat -> nat -> R) : list (list R) := map (fun y => map (fun x => f y x) (seq 0 nx)) (seq 0 ny).
+Definition tab3 {R} (nz ny nx : nat) (f : nat -> nat -> nat -> R) : list (list (list R)) :=
+  map (fun z => tab2 ny nx (f z)) (seq 0 nz).
+
+(* jacobian_det(add_identity), divergence, curl, lie_bracket(v, u) as fields; curl / lie give a vector per point *)
+Definition det2_field (m : fdmode) (sp : list K) (ident : bool) (u : list (list (list K))) (ny nx : nat) :=
+  let JT := jacT2 m sp u in tab2 ny nx (fun y x => on4 (if ident then gen_det2_id else gen_det2) (jac2_at JT y x)).
+Definition div2_field m sp (u : list (list (list K))) ny nx :=
+  let JT := jacT2 m sp u in tab2 ny nx (fun y x => on4 gen_div2 (jac2_at JT y x)).
+Definition curl2_field m sp (u : list (list (list K))) ny nx :=
+  let JT := jacT2 m sp u in tab2 ny nx (fun y x => on4 gen_curl2 (jac2_at JT y x)).
+Definition lie2_at (Jv Ju : list (list K)) (v u : list K) : list K :=
+  on4 (fun a b c d => on4 (fun e f g h => gen_lie2 a b c d e f g h (nth 0 v 0) (nth 1 v 0) (nth 0 u 0) (nth 1 u 0)) Ju) Jv.
+Definition lie2_field m sp (v u : list (list (list K))) ny nx :=
+  let JV := jacT2 m sp v in let JU := jacT2 m sp u in
+  tab2 ny nx (fun y x => lie2_at (jac2_at JV y x) (jac2_at JU y x) (vec2_at v y x) (vec2_at u y x)).
+
+Definition det3_field (m : fdmode) (sp : list K) (ident : bool) (u : list (list (list (list K)))) (nz ny nx : nat) :=
+  let JT := jacT3 m sp u in tab3 nz ny nx (fun z y x => on9 (if ident then gen_det3_id else gen_det3) (jac3_at JT z y x)).
+Definition div3_field m sp (u : list (list (list (list K)))) nz ny nx :=
+  let JT := jacT3 m sp u in tab3 nz ny nx (fun z y x => on9 gen_div3 (jac3_at JT z y x)).
+Definition curl3_field m sp (u : list (list (list (list K)))) nz ny nx :=
+  let JT := jacT3 m sp u in tab3 nz ny nx (fun z y x => on9 gen_curl3 (jac3_at JT z y x)).
+Definition lie3_at (Jv Ju : list (list K)) (v u : list K) : list K :=
+  on9 (fun a b c d e f g h i => on9 (fun a' b' c' d' e' f' g' h' i' =>
+        gen_lie3 a b c d e f g h i a' b' c' d' e' f' g' h' i'
+                 (nth 0 v 0) (nth 1 v 0) (nth 2 v 0) (nth 0 u 0) (nth 1 u 0) (nth 2 u 0)) Ju) Jv.
+Definition lie3_field m sp (v u : list (list (list (list K)))) nz ny nx :=
+  let JV := jacT3 m sp v in let JU := jacT3 m sp u in
+  tab3 nz ny nx (fun z y x => lie3_at (jac3_at JV z y x) (jac3_at JU z y x) (vec3_at v z y x) (vec3_at u z y x)).
+End FlowOps.
+
 (* ---- key handling of spatial_derivatives / flow_derivatives: the table-building loop ---- *)
 Section Keys.
 Variable V : Type.
